@@ -78,6 +78,11 @@ def pair_programs(draw):
     items = list(consts)
     meta = []
     pess = 0
+    placed = set()
+    if draw(st.integers(0, 5)) == 0:
+        # the very first byte of the program is a target too: a label whose value is 0 (round 8)
+        items.append(ir.Label(labels[0]))
+        placed.add(labels[0])
     nshrink = draw(st.integers(0, 3))
     for _ in range(nshrink):
         k = draw(st.integers(0, 2))
@@ -110,6 +115,8 @@ def pair_programs(draw):
 
     todo = list(pairs)
     for L in labels:
+        if L in placed:
+            continue
         while todo and draw(st.integers(0, 2)) == 0:
             emit_pair(todo.pop())
         target = draw(st.sampled_from([0x800, 0x1000, 0x1800, 0x2000, 0x3000, 0x7f8, 0xff8])) + draw(st.sampled_from([0, 0, 0, 2, -2, 4, -4, 8]))
